@@ -8,7 +8,7 @@
 From Coq Require Import QArith Qcanon.
 From Amgcl Require Import Scalar QcInst Vec Kernels KernelsProofs Krylov KrylovRef KrylovProofs
                           KrylovMathVec KrylovMathGmres KrylovMathLsq KrylovMathMinres KrylovMathQc
-                          KrylovMath2Gmres AmgOrder.
+                          KrylovMathCG KrylovMath2Gmres KrylovMath2CG AmgOrder.
 Local Close Scope Q_scope.
 Local Close Scope Qc_scope.
 Local Open Scope S_scope.
@@ -118,4 +118,13 @@ Proof.
                 AH_len Pid_len AH_lin Pid_lin (prmG 1) fG xG w0G epsG nrG 0 Lf Lx Hr Nx Nn) as T.
   change (with_maxiter (prmG 1) (SS (p_maxiter (prmG 1)))) with (prmG 2) in T.
   rewrite J2 in T. exact (T Hh Hx Hu Hd).
+Qed.
+
+(* ---------------- CG finite termination on the CG example system of KrylovMathQc.v ---------------- *)
+Example cg_termination_example :
+  exists k, k <= 3 /\ rk A3 P3 f3 x03 k = zeron 3 /\ A3 (xk A3 P3 f3 x03 k) = f3.
+Proof.
+  destruct cg_hypotheses_satisfiable as (_ & _ & _ & LA & LP & SA & SP & LinA & _ & Lf & Lx & _ & _ & _ & _).
+  destruct cg_nobreak_hypotheses_satisfiable as (Apd & Ppd & _).
+  exact (cg_terminates_within_n_steps QcS_field QcS_eqb QcS_real QcS_ordered' 3 A3 P3 LA LP SA SP LinA Apd Ppd f3 x03 Lf Lx).
 Qed.
